@@ -229,5 +229,10 @@ def gen_unused(rng):
     return "\n".join(lines)
 
 
+def gen_layered(rng):
+    import gen
+    return gen.layered_program(rng)
+
+
 GENERATORS = {"minmax_chains": gen_minmax, "sum_chains": gen_sumchains, "inline": gen_inline, "math": gen_math,
               "duplication": gen_duplication, "symmetry": gen_symmetry, "unused": gen_unused}
